@@ -19,8 +19,12 @@ var (
 )
 
 // VerifBasic runs authBasicHandler (C51) for a request of product "p" whose single rule has the given user table
-// (user -> stored hash).  Returns whether the request goes on and the status of the rejection response.
-func VerifBasic(route int, users map[string]string, auth string, hasAuth bool) (bool, int, string) {
+// (file with user:hash lines, read by readUserFile).  Returns whether the request goes on and the status of the rejection response.
+func VerifBasic(route int, userFile string, auth string, hasAuth bool) (bool, int, string) {
+	users, err := readUserFile(userFile) // the rule's user table is read from an htpasswd-style file, as at load time
+	if err != nil {
+		panic(err)
+	}
 	verifOnce.Do(func() {
 		verifMod = NewModuleAuthBasic()
 		c, err := condition.Build("default_t()")
